@@ -20,7 +20,43 @@ KINDS = ('contract', 'transport', 'transport', 'storage', 'multi', 'multi', 'ord
          'periodic', 'storage_blocks', 'scaled')
 
 
+def fixed_only_spec(rng):
+    """a portfolio in which, in the last split interval, only must-run assets (min_cap == max_cap) are active - and do not balance: there is no solution for that
+    interval, so nothing may be returned as one."""
+    import pandas as pd
+    g = gen.gen_grid(rng, freqs=['h', '2h'], steps=(48, 48), hour_offsets=(0,), tzs=[None, 'CET'])
+    d0 = pd.Timestamp(g['start']); days = 2 if g['freq'] == 'h' else 4
+    g['end'] = str(d0 + pd.Timedelta(days=days))
+    f = gen.UNIT_F[g['unit']]
+    gq, dq = gen.pick(rng, [(5., 3.), (2., 6.), (4., 4.5)])
+    assets = [{'type': 'SimpleContract', 'name': 'must_run', 'nodes': ['hub'], 'min_cap': gq * f, 'max_cap': gq * f, 'wacc': 0.},
+              {'type': 'SimpleContract', 'name': 'load', 'nodes': ['hub'], 'min_cap': -dq * f, 'max_cap': -dq * f, 'wacc': 0.},
+              {'type': 'SimpleContract', 'name': 'mkt', 'nodes': ['hub'], 'price': 'p0', 'min_cap': -20. * f, 'max_cap': 20. * f, 'extra_costs': 0.1, 'wacc': 0.,
+               'end': str(d0 + pd.Timedelta(days=days - 1))}]
+    if not (gen.local_ok(g['end'], g.get('tz')) and gen.local_ok(assets[2]['end'], g.get('tz'))):
+        return None
+    T = len(gen.grid_points(g))
+    return {'grid': g, 'assets': assets, 'prices': gen.gen_prices(rng, T, ['p0'], kind='normal')}
+
+
 def run_case(rng, tier, case):
+    if rng.random() < 0.04:
+        spec = fixed_only_spec(rng)
+        if spec is not None:
+            case.feature('fixed_only_last_interval')
+            case.key = env.spec_key(spec); case.sample = gen.abbreviate(spec); case.spec = spec
+            for split in ('d', None):
+                r = flow.run_portfolio(spec, split=split)
+                if r.ok and r.solved:
+                    # (a returned solution is judged like any other)
+                    mon_balance_output(case, r.built.portfolio, r.out, clause='balance.output')
+                    for ev in r.rec.of('optimize'):
+                        if ev.snap is not None and ev.ret is not None and not isinstance(ev.ret, str):
+                            mon_balance_raw(case, ev.snap, ev.ret.x)
+                else:
+                    case.event('no_solution_returned_for_unbalanced_must_run_assets')
+            case.nontrivial = True
+            return
     spec = gen.gen_mixed_portfolio(rng, kinds=KINDS, grid_kw={'steps': (4, 26)}, n_assets=(2, 5), n_nodes=(1, 3))
     split = None
     if rng.random() < 0.35 and not spec['grid']['freq'].endswith('d'):
